@@ -2,6 +2,8 @@ import MpireModel.Model.Worker
 import MpireModel.Model.Protocol
 import MpireModel.Proofs.Worker
 import MpireModel.Proofs.Protocol
+import MpireModel.Model.Watch
+import MpireModel.Proofs.Watch
 /-!
 # C12 — worker_lifespan bounds the work of every worker instance
 -/
@@ -49,5 +51,13 @@ theorem restart_moves_nothing (s s' : Mpire.Proto.Sys) (w : Nat) (h : Mpire.Prot
 example : (taskIds (run { lifespan := some 2 } {} [.chunk 5 [⟨0, .ok⟩, ⟨1, .ok⟩, ⟨2, .ok⟩], .chunk 5 [⟨3, .ok⟩]])).length = 3
     ∧ Act.restartReq ∈ run { lifespan := some 2 } {} [.chunk 5 [⟨0, .ok⟩, ⟨1, .ok⟩, ⟨2, .ok⟩], .chunk 5 [⟨3, .ok⟩]] := by
   decide +kernel
+
+/-- "A routine restart is never mistaken for a failure": for every interleaving of the life of a worker slot — start (the child may
+run before `Process.start()` has returned in the parent), marking itself alive, marking itself dead, process exit, replacement by a new
+process object at the end of a lifespan — with the individual reads of the death handler's scan, the scan never reports a death as long
+as nobody was killed. -/
+theorem routine_restart_not_mistaken_for_failure (s : Mpire.Watch.DSt) (h : Mpire.Watch.DReachable s)
+    (hk : s.everKilled = false) : s.scan ≠ .verdict true :=
+  Mpire.Proofs.Watch.restart_not_death s h hk
 
 end Mpire.C12
